@@ -184,6 +184,19 @@ func isTokenSuccess(r *world.Resp) (*world.TokenResponse, bool) {
 	return tr, tr.AccessToken != "" || tr.RefreshToken != "" || tr.IDToken != ""
 }
 
+// secretCheckFailed: the storage's secret check was made in this request and failed by injection. A request that
+// still acts for the client did so without the client having been authenticated.
+func (tw *tokenWorld) secretCheckFailed(r *world.Resp, site, desc string) {
+	if r == nil || r.Ex == nil {
+		return
+	}
+	for _, j := range tw.w.Store.JournalFor(r.Ex.ID) {
+		if j.Method == "AuthorizeClientIDSecret" && j.Fault != "" {
+			tw.viol("C05", "unauthenticated-success", site+"/secret-check-failed", "%s: the endpoint acted for the client although the storage's secret check failed (%s)", desc, j.Fault)
+		}
+	}
+}
+
 // checkRefusal: refusals of the token endpoint must be a non-success status with an OAuth error document.
 func (tw *tokenWorld) checkRefusal(r *world.Resp, what string) {
 	if r == nil || r.Err != nil || r.Ex == nil || r.Ex.Panic != "" {
@@ -295,6 +308,7 @@ func (tw *tokenWorld) refresh(ch *kernel.Chooser) string {
 		return desc
 	}
 	tw.o.Probe("refresh-success")
+	tw.secretCheckFailed(r, "token/refresh", desc)
 	// ---- C05: authentication and grant ----
 	allowed, und, why := authAllowed(w, p, true, w.Conf.AuthMethodPrivateKeyJWT, time.Now())
 	if !und && !allowed {
@@ -580,6 +594,7 @@ func (tw *tokenWorld) introspect(ch *kernel.Chooser) string {
 		return desc + " inactive"
 	}
 	tw.o.Probe("introspect-active")
+	tw.secretCheckFailed(r, "introspect", desc)
 	if torn {
 		tw.viol("C08", "dead-token-honoured", "introspect-torn", "%s: active:true although the storage call failed", desc)
 	}
@@ -644,11 +659,16 @@ func (tw *tokenWorld) revoke(ch *kernel.Chooser) string {
 		return desc
 	}
 	liveAfter := tw.isLive(g, what)
+	if liveBefore && !liveAfter && !tw.killed(g, what) {
+		// the token merely expired while the request was being served (a stalled storage call lets the clock move)
+		liveAfter, liveBefore = false, false
+	}
 	allowed, und, why := authAllowed(w, p, true, true, time.Now())
 	// the positive obligations of revocation are demanded only of callers that authenticate exactly as registered
 	authed := allowed && !und && (p.label == "right" || p.label == "right-assertion")
 	if liveBefore && !liveAfter {
 		tw.o.Probe("revocation-effective")
+		tw.secretCheckFailed(r, "revoke", desc)
 		// a state change: only the owner, authenticated, may cause it
 		if !und && !allowed {
 			tw.viol("C05", "unauthenticated-success", "revoke/"+why, "%s: token was revoked although presentation %q does not authenticate client %q (%s)", desc, p.label, caller, why)
@@ -694,6 +714,20 @@ func (tw *tokenWorld) liveWithMargin(g *grantedToken, what string) bool {
 	id, _, _, _ := tw.w.DecodeAccess(g.access)
 	t := tw.w.Store.TokenSnapshot(id)
 	return t != nil && time.Until(t.Exp) > 3*time.Second
+}
+
+// killed: the storage marks the token revoked / dead (as opposed to merely past its expiry).
+func (tw *tokenWorld) killed(g *grantedToken, what string) bool {
+	if what == "refresh" {
+		r := tw.w.Store.RefreshSnapshot(g.refresh)
+		return r != nil && r.Dead
+	}
+	id, _, _, ok := tw.w.DecodeAccess(g.access)
+	if !ok {
+		return false
+	}
+	t := tw.w.Store.TokenSnapshot(id)
+	return t != nil && t.Revoked
 }
 
 func (tw *tokenWorld) isLive(g *grantedToken, what string) bool {
@@ -823,6 +857,7 @@ func (tw *tokenWorld) otherGrant(ch *kernel.Chooser) string {
 		return desc
 	}
 	tw.o.Probe("other-grant-success")
+	tw.secretCheckFailed(r, "token/"+grantName(grant), desc)
 	allowed, und, why := authAllowed(w, p, publicOK, w.Conf.AuthMethodPrivateKeyJWT, time.Now())
 	if !und && !allowed {
 		tw.viol("C05", "unauthenticated-success", "token/"+grantName(grant)+"/"+why, "%s: tokens issued although presentation %q does not authenticate client %q (%s)", desc, p.label, caller, why)
@@ -858,6 +893,7 @@ func (tw *tokenWorld) codeGrant(ch *kernel.Chooser) string {
 		return desc
 	}
 	tw.o.Probe("other-grant-success")
+	tw.secretCheckFailed(r, "token/authorization_code", desc)
 	allowed, und, why := authAllowed(w, p, true, w.Conf.AuthMethodPrivateKeyJWT, time.Now())
 	if !und && !allowed {
 		tw.viol("C05", "unauthenticated-success", "token/authorization_code/"+why, "%s: tokens issued although presentation %q does not authenticate client %q (%s)", desc, p.label, client, why)
@@ -919,6 +955,21 @@ func runTokenWorld(t *testing.T, spec kernel.Spec, prop string, weights map[stri
 				o.Probe("parameters-in-url-query")
 			}
 			defer func() { w.QueryKeys = nil }()
+			if tw.prop == "C05" && tw.faulty && ch.Bool(1, 6) {
+				// the storage's secret check itself fails in this step (cancelled inside the storage, or timed out on its
+				// own or with the request): a failed check authenticates nobody, whatever kind of failure it was
+				kind := ch.Pick(world.FaultCanceled, world.FaultTimeoutFast, world.FaultTimeout, world.FaultError)
+				w.Store.Inject = func(n int, method string, rid int) string {
+					if method == "AuthorizeClientIDSecret" {
+						o.Fault(kind)
+						o.Probe("secret-check-fails")
+						return kind
+					}
+					return ""
+				}
+				defer func() { w.Store.Inject = nil }()
+				inQuery += " [storage: secret check answers " + kind + "]"
+			}
 			x := ch.Int(total)
 			for _, op := range ops {
 				if x < weights[op.name] {
